@@ -234,6 +234,26 @@ func (e *Env) Eval(c CExpr) TVal {
 	case *CBinary:
 		return e.evalBinary(c)
 	case *CSel:
+		if id, ok := c.X.(*CIdent); ok {
+			if _, isVar := e.lookup(id.Name); !isVar && e.pkg != nil {
+				// package qualifier: a package imported by the package under analysis
+				for _, imp := range e.pkg.Pkg.Imports() {
+					if imp.Name() == id.Name {
+						if sp := e.x.eng.ssaPkg(imp.Path()); sp != nil {
+							sub := *e
+							sub.pkg = sp
+							sub.vars = map[string]TVal{}
+							sub.resolver = nil
+							if v, ok := sub.lookup(c.Name); ok {
+								return v
+							}
+						}
+						e.errorf("unknown member %s.%s", id.Name, c.Name)
+						return mathInt("0")
+					}
+				}
+			}
+		}
 		x := e.Eval(c.X)
 		return e.selField(x, c.Name)
 	case *CIndex:
@@ -553,6 +573,9 @@ func (e *Env) evalCall(c *CCall) TVal {
 		if k, ok := litArg(0); ok && k >= 0 {
 			return mathInt(Pow10(k))
 		}
+		if n, ok := isNumeral(argT(0)); ok && n.IsInt64() && n.Int64() >= 0 && n.Int64() < 4096 {
+			return mathInt(Pow10(int(n.Int64())))
+		}
 		if e.qdepth > 0 {
 			return mathInt(app("pow10", argT(0)))
 		}
@@ -563,7 +586,7 @@ func (e *Env) evalCall(c *CCall) TVal {
 		}
 		return mathInt(ctx.Pow2Sym(argT(0)))
 	case "emod":
-		return mathInt(app("mod", argT(0), argT(1)))
+		return mathInt(ctx.EMod(argT(0), argT(1)))
 	case "ediv":
 		return mathInt(app("div", argT(0), argT(1)))
 	case "fits":
@@ -682,7 +705,11 @@ func (c *Ctx) Pow10Sym(k Term) Term {
 	r := c.Fresh("p10", SInt)
 	cs := []Term{Eq(r, app("pow10", k)), Implies(Ge(k, "0"), Gt(r, "0"))}
 	// ground instances over the range the code base uses
-	for i := 0; i <= 80; i++ {
+	max := c.pow10Max
+	if max == 0 {
+		max = 120
+	}
+	for i := 0; i <= max; i++ {
 		cs = append(cs, Implies(Eq(k, Lit(int64(i))), Eq(r, Pow10(i))))
 	}
 	c.Assert(And(cs...))
